@@ -1,9 +1,20 @@
 #!/bin/sh
 # Generates src/gen.rs from the interface specification and builds the harness.
-# usage: build.sh [ifaces.txt]      (default /verif/ifaces/ifaces.txt)
+# usage: build.sh [ifaces.txt [fresh]]      (default /verif/ifaces/ifaces.txt)
+# with `fresh`: generates src/gen_fresh.rs and builds target_fresh/debug/harness (feature `fresh`) — the
+# interfaces of a thorough run's fresh declaration sets; the ordinary build is left alone.
 set -eu
 HERE="$(cd "$(dirname "$0")" && pwd)"
 IFACES="${1:-/verif/ifaces/ifaces.txt}"
+VARIANT="${2:-}"
+GEN=src/gen.rs
+TARGET=/verif/harness/target
+FEATURES=""
+if [ "$VARIANT" = fresh ]; then
+    GEN=src/gen_fresh.rs
+    TARGET=/verif/harness/target_fresh
+    FEATURES="--features fresh"
+fi
 export CARGO_NET_OFFLINE=true
 
 cd "$HERE"
@@ -11,11 +22,11 @@ mkdir -p src
 
 # Only rewrite src/gen.rs when its content changes, so that cargo does not
 # rebuild needlessly.
-python3 "$HERE/gen_ifaces.py" "$IFACES" "$HERE/src/gen.rs.tmp"
-if [ -f src/gen.rs ] && cmp -s src/gen.rs.tmp src/gen.rs; then
-    rm -f src/gen.rs.tmp
+python3 "$HERE/gen_ifaces.py" "$IFACES" "$HERE/$GEN.tmp"
+if [ -f "$GEN" ] && cmp -s "$GEN.tmp" "$GEN"; then
+    rm -f "$GEN.tmp"
 else
-    mv src/gen.rs.tmp src/gen.rs
+    mv "$GEN.tmp" "$GEN"
 fi
 
 if [ ! -f Cargo.lock ]; then
@@ -23,5 +34,5 @@ if [ ! -f Cargo.lock ]; then
     chmod u+w Cargo.lock
 fi
 
-cargo build --offline --manifest-path "$HERE/Cargo.toml" --target-dir /verif/harness/target
-echo "built: /verif/harness/target/debug/harness"
+cargo build --offline --manifest-path "$HERE/Cargo.toml" --target-dir "$TARGET" $FEATURES
+echo "built: $TARGET/debug/harness"
